@@ -28,6 +28,10 @@ CHECKS = {
    technique="stateless model checking of the real printing code under a controlled scheduler: DFS over all interleavings at lock granularity (preemption-bounded where stated), with the Go race detector (blind to the scheduler's own hand-offs) and a text oracle evaluated on every schedule",
    text="For every scenario (5 module states: parsed with unnamed values, parsed kitchen-sink with quoted names, parsed with two functions, constructed never printed, constructed printed once) x every pair of 8 printer bodies (and String||String||LLString triples under a preemption bound), ALL schedules of the real code are executed: sync.Mutex is replaced through the build overlay by a shim with a scheduling point before each Lock and after each Unlock; quick explores all interleavings for the small pairs and preemption bound 3 for whole-module pairs, thorough all interleavings (48620 per whole-module pair). On each schedule the real TSan race detector must be silent (its view contains only the program's own mutex and join edges) and each returned text must equal the lone sequential text; deadlocks and panics are violations.",
    note="Complete only up to the stated thread count (2-3) and preemption bounds; relies on DRF-SC (silence of the race detector on an execution implies equivalence to a lock-granularity interleaving); modules are fixed scenarios, not all modules."),
+ "C12": dict(level="model_checking", design="§1 E2/E3, §2 C12", engine="vhook-sched",
+   technique="exhaustive enumeration of owned nondeterminism on the real translator: all single (thorough: pairwise) permutations of every map-range loop (overlay rewrite driven by go/types), all parse/print histories to depth 3 (4) over every entry point and reader behaviour against fresh-process references, and preemption-bounded exploration of concurrent parses under the race-detector-visible scheduler",
+   text="(a) Every map iteration in asm/ir is replaced at build time by an iteration whose order the harness decides; for 7 inputs (accepted and rejected, incl. names whose natural order needs 20-digit comparison) every non-identity permutation at each executed loop (thorough: at each pair of loops) must give the same accept/reject verdict and byte-identical printed module as the sorted order. (b) Every history of depth <=3 (thorough 4) over 11 operations (ParseString of A/B/two rejected inputs, ParseBytes, Parse with 4 reader behaviours, ParseFile, print of the previous module) is replayed in one long-lived process; each parse must equal the result of a fresh process; A and B reuse the same names, literals and IDs with different meanings so that leaked caches show. (c) 7 thread sets of concurrent parses/prints are explored under the controlled scheduler up to 2 (3) preemptions with TSan on every schedule.",
+   note="Inputs are fixed scenario texts (validated against llvm-as); permutations of more than two loops at once and histories longer than the bound are not explored; error *messages* of rejected inputs are not compared (only the verdict)."),
 }
 
 NOT_APPLICABLE = {}
